@@ -9,8 +9,13 @@
    forked children close the handles they inherited in between (C11_prefix_forked); `read_listed` is the collector's
    read of one listed file, which may have vanished since the listing (the two C11_vanished theorems).
    Granularity: one slice assignment is one atomic effect (trusted: a slice write to a shared mapping is observed
-   whole).  Strength: partial in that sense only; all histories, all cuts. *)
-From V Require Import lib.PyBase model.MmapDict proofs.MmapDictProofs.
+   whole).  Strength: partial in that sense only; all histories, all cuts.
+   THE READER IS NOT ATOMIC with respect to a live writer: read_all_values_from_file makes two read() calls when more
+   than one block is in use, and the writer may perform any number of effects in between.  `read_all_from_file_il b1 b2`
+   is the reader whose first read sees the file b1 and whose second read sees b2 (proofs/MmapDictIl.v);
+   C11_interleaved / C11_interleaved_entries say what it returns for ANY two cuts n1 <= n2 of any history;
+   C11_prefix is the case n1 = n2.  What does NOT hold for n1 < n2 is stated too (C11_interleaved_not_a_prefix_state). *)
+From V Require Import lib.PyBase model.MmapDict proofs.MmapDictProofs proofs.MmapDictIl.
 Open Scope N_scope.
 
 (* For every history and every cut n >= 1 of its effect trace (n = 0 is "no file yet"):
@@ -181,3 +186,118 @@ Example C11_example_forked :
   wtrace 65536 [Own (Write [97] [1;2;3;4;5;6;7;8] zero8); Fork; Own (ReadV [98]); CloseInherited; Own (ReadV [99])]
   = trace 65536 [Write [97] [1;2;3;4;5;6;7;8] zero8; ReadV [98]; ReadV [99]].
 Proof. vm_compute. reflexivity. Qed.
+
+(* ---------- the reader as a sequence of reads over a changing file ---------- *)
+(* The reader's first read (one block: the header and the first pg bytes) is served from the file after n1 effects of
+   the writer's trace, its second read (the rest of the used bytes, made only when the header of the FIRST read says
+   that more than one block is in use) from the file after n2 >= n1 effects.  For every history and all such n1, n2:
+   - the reader returns Ok: a writer that appends, grows the file or updates values between the two reads can never make
+     the read (hence the scrape) fail;
+   - s1 and s2, what an atomic reader returns at n1 and at n2, are prefix states (+ in-flight key) of m1 <= m2
+     operations, and the key list of s2 extends the key list of s1;
+   - what is returned is mix (pg - 8) s1 s2' with s2' the entries of s2 that have the keys of s1: the bytes of the first
+     block as they were at n1, the bytes beyond it as they are at n2, the parse bounded by the header of n1. *)
+Theorem C11_interleaved : forall isz pg, 8 <= isz -> 8 <= pg -> forall ops tr,
+  Forall wf_op ops -> 8 + total (spec ops) < 2147483648 -> trace isz ops = Ok tr ->
+  forall n1 n2, (1 <= n1)%nat -> (n1 <= n2)%nat ->
+  exists b1 b2 m1 infl1 m2 infl2,
+    cut n1 tr = Ok (Some b1) /\ cut n2 tr = Ok (Some b2) /\
+    (m1 <= m2)%nat /\ (m2 <= length ops)%nat /\
+    inflight_ok [] (firstn m1 ops) (nth_error ops m1) infl1 /\
+    inflight_ok [] (firstn m2 ops) (nth_error ops m2) infl2 /\
+    read_all_from_file pg b1 = Ok (spec (firstn m1 ops) ++ infl1) /\
+    read_all_from_file pg b2 = Ok (spec (firstn m2 ops) ++ infl2) /\
+    (exists ks, map fst (spec (firstn m2 ops) ++ infl2) = map fst (spec (firstn m1 ops) ++ infl1) ++ ks) /\
+    read_all_from_file_il pg b1 b2
+    = Ok (mix (pg - 8) (spec (firstn m1 ops) ++ infl1)
+              (firstn (length (spec (firstn m1 ops) ++ infl1)) (spec (firstn m2 ops) ++ infl2))).
+Proof. exact il_cuts. Qed.
+Print Assumptions C11_interleaved.
+
+(* the same entry by entry, for an 8-aligned block size (mmap.PAGESIZE is): the list l that is returned
+   - has exactly the keys of the state at the first read, in order: no key that was not published when the reader took
+     the header, none missing, none that was never written;
+   - every entry is the entry of its key in the state at the first read (x) or in the state at the second read (y),
+     or - only the one entry whose 16 value bytes straddle the block boundary - the value of x with the timestamp of y;
+   - if one block holds everything in use at the first read, l IS the prefix state of the first read, whatever the
+     writer does afterwards; and so it is when the writer only appended between the two reads. *)
+Theorem C11_interleaved_entries : forall isz pg, 8 <= isz -> 8 <= pg -> forall ops tr,
+  pg mod 8 = 0 -> Forall wf_op ops -> 8 + total (spec ops) < 2147483648 -> trace isz ops = Ok tr ->
+  forall n1 n2, (1 <= n1)%nat -> (n1 <= n2)%nat ->
+  exists b1 b2 m1 infl1 m2 infl2 l,
+    cut n1 tr = Ok (Some b1) /\ cut n2 tr = Ok (Some b2) /\
+    (m1 <= m2)%nat /\ (m2 <= length ops)%nat /\
+    inflight_ok [] (firstn m1 ops) (nth_error ops m1) infl1 /\
+    inflight_ok [] (firstn m2 ops) (nth_error ops m2) infl2 /\
+    read_all_from_file pg b1 = Ok (spec (firstn m1 ops) ++ infl1) /\
+    read_all_from_file pg b2 = Ok (spec (firstn m2 ops) ++ infl2) /\
+    read_all_from_file_il pg b1 b2 = Ok l /\
+    map fst l = map fst (spec (firstn m1 ops) ++ infl1) /\
+    (forall i e, nth_error l i = Some e ->
+       exists x y, nth_error (spec (firstn m1 ops) ++ infl1) i = Some x /\
+                   nth_error (spec (firstn m2 ops) ++ infl2) i = Some y /\ fst x = fst y /\
+                   (e = x \/ e = y \/ e = (fst x, (fst (snd x), snd (snd y))))) /\
+    (8 + total (spec (firstn m1 ops) ++ infl1) <= pg -> l = spec (firstn m1 ops) ++ infl1) /\
+    (firstn (length (spec (firstn m1 ops) ++ infl1)) (spec (firstn m2 ops) ++ infl2) = spec (firstn m1 ops) ++ infl1 ->
+     l = spec (firstn m1 ops) ++ infl1).
+Proof. exact il_entries. Qed.
+Print Assumptions C11_interleaved_entries.
+
+(* the reader that is atomic with respect to the writer is the case b1 = b2 *)
+Theorem C11_interleaved_atomic : forall pg b, read_all_from_file_il pg b b = read_all_from_file pg b.
+Proof. exact il_atomic. Qed.
+Print Assumptions C11_interleaved_atomic.
+
+(* What a NON-atomic read of a file with more than one block in use is NOT (witnesses at isz = 64, block size 32; trace
+   = 3 effects of __init__, then the slice writes of the operations):
+   (1) it need not be a prefix state: with key a in the first block and key b beyond it, a reader whose two reads
+       straddle `write a; write b` returns a old, b new - each entry is from a prefix state, the list as a whole is the
+       state after no prefix of the history;
+   (2) it need not even be made of (value, timestamp) pairs that were written: a key whose value sits in the last 8
+       bytes of the first block has its timestamp in the second, and a reader whose two reads straddle one
+       write_value(key, v2, t2) returns (v1, t2).  The single 16-byte slice assignment makes the update atomic on
+       the file; two reads split at an 8-aligned boundary undo that for this one entry. *)
+Definition ex_v1 : bytes := [1;1;1;1;1;1;1;1].
+Definition ex_t1 : bytes := [2;2;2;2;2;2;2;2].
+Definition ex_v2 : bytes := [3;3;3;3;3;3;3;3].
+Definition ex_t2 : bytes := [4;4;4;4;4;4;4;4].
+Definition ex_mixed : list op :=
+  [Write [97] ex_v1 ex_t1; Write [98] ex_v1 ex_t1; Write [97] ex_v2 ex_t2; Write [98] ex_v2 ex_t2].
+Definition ex_torn : list op := [Write [97;98;99;100] ex_v1 ex_t1; Write [97;98;99;100] ex_v2 ex_t2].
+Theorem C11_interleaved_not_a_prefix_state :
+  (* (1) first read after operation 2 (cut 9), second read after operation 4 (cut 11) *)
+  (do tr <- trace 64 ex_mixed; read_il_at 32 tr 9 11) = Ok [([97], (ex_v1, ex_t1)); ([98], (ex_v2, ex_t2))] /\
+  (forall m, (m <= 4)%nat -> spec (firstn m ex_mixed) <> [([97], (ex_v1, ex_t1)); ([98], (ex_v2, ex_t2))]) /\
+  (* (2) first read after operation 1 (cut 6), second read after operation 2 (cut 7) *)
+  (do tr <- trace 64 ex_torn; read_il_at 32 tr 6 7) = Ok [([97;98;99;100], (ex_v1, ex_t2))] /\
+  ~ written ex_torn ([97;98;99;100], (ex_v1, ex_t2)).
+Proof.
+  split; [vm_compute; reflexivity|]. split.
+  - intros m Hm. destruct m as [|[|[|[|[|m]]]]]; try lia; vm_compute; discriminate.
+  - split; [vm_compute; reflexivity|].
+    unfold written, ex_torn. cbn [fst snd In]. intros [[H|[H|[]]]|[H _]]; discriminate.
+Qed.
+Print Assumptions C11_interleaved_not_a_prefix_state.
+
+(* non-vacuity, and the theorem separates readers: with the writer completing one append between the two reads
+   (first read at cut 6: key a complete, 32 bytes in use, block size 24; second read at cut 8: key b appended and
+   published) the pinned reader returns the state of its first read.  A reader that instead re-reads the first
+   `used` bytes from offset 0 and lets the parser take the header from that second buffer (the length fixed by the first
+   header, the bound taken from the second) runs off its buffer: struct.error, and the scrape fails. *)
+Definition ex_reread_reader (pg : N) (b1 b2 : bytes) : res (list entry) :=
+  let data := take pg b1 in
+  if len data =? 0 then Ok [] else
+  do u <- unpack_i data 0;
+  let data' := if (Z.of_N (len data) <? u)%Z then take (Z.to_N u) b2 else data in
+  do l <- read_all_values_raw data' 0; Ok (drop_pos l).
+Example C11_example_interleaved :
+  match trace 64 ex_ops with
+  | Ok tr =>
+      length tr = 8%nat /\
+      read_il_at 24 tr 6 8 = Ok [([97], ([1;2;3;4;5;6;7;8], zero8))] /\
+      read_il_at 24 tr 8 8 = Ok (spec ex_ops) /\
+      (do f1 <- cut 6 tr; do f2 <- cut 8 tr;
+       match f1, f2 with Some b1, Some b2 => ex_reread_reader 24 b1 b2 | _, _ => Err OSError end) = Err StructError
+  | Err _ => False
+  end.
+Proof. vm_compute. repeat split; reflexivity. Qed.
